@@ -62,7 +62,7 @@ Cfg gen_cfg(Rng &rng, GenOpts const &o){
     std::vector<int> fams;
     for(int f=0; f<5; f++) if (o.families & (1u << f)) fams.push_back(f);
     c.family = rng.pick(fams);
-    c.dims = rng.range(1, o.max_dims);
+    c.dims = rng.range(std::min(o.min_dims, o.max_dims), o.max_dims);
     if (rng.coin(0.15)) c.dims = 1;
     c.outs = rng.range(o.min_outs, o.max_outs);
     c.type = rng.pick(depth_types());
@@ -79,6 +79,16 @@ Cfg gen_cfg(Rng &rng, GenOpts const &o){
                 c.alpha = rng.coin(0.2) ? (double) rng.range(0, 2) : rng.uni(-0.9, 3.0);
                 c.beta = rng.coin(0.2) ? (double) rng.range(0, 2) : rng.uni(-0.9, 3.0);
                 if (is_hermite(c.rule) && rng.coin(0.3)) c.alpha = 0.0;
+                {   // one configuration in eight gets parameters in a special relation (derived from the bits already drawn, so that the random
+                    // stream of all other configurations is unchanged): alpha + beta = -1 exactly (Chebyshev-like weights, where the general
+                    // three-term recurrence formulas are 0/0), alpha = beta, alpha = -1/2
+                    uint64_t hsh = (dbits(c.alpha) * 0x9E3779B97F4A7C15ull) ^ (dbits(c.beta) >> 7);
+                    if ((hsh >> 33) % 8 == 0 && !is_hermite(c.rule) && !is_laguerre(c.rule)){
+                        static const double specials[] = {-0.5, -0.25, -0.75, -0.125};
+                        c.alpha = specials[(hsh >> 40) % 4];
+                        switch((hsh >> 45) % 3){ case 0: c.beta = -1.0 - c.alpha; break; case 1: c.beta = c.alpha; break; default: c.alpha = -0.5; c.beta = -0.5; break; }
+                    }
+                }
             }
             break; }
         case fam_sequence: c.rule = rng.pick(sequence_rules()); break;
@@ -86,7 +96,7 @@ Cfg gen_cfg(Rng &rng, GenOpts const &o){
             c.rule = rng.pick(localp_rules());
             { static const int ords[] = {-1, 0, 1, 1, 2, 2, 3, 4, 5}; c.order = ords[rng.range(0, 8)]; }
             break;
-        case fam_wavelet: c.rule = rule_wavelet; c.order = rng.coin() ? 1 : 3; break;
+        case fam_wavelet: c.rule = rule_wavelet; c.order = rng.coin() ? 1 : 3; if (o.wavelet_order) c.order = o.wavelet_order; break;
         default: c.rule = rule_fourier; break;
     }
     // depth caps that keep rule construction cheap (greedy sequences are optimised numerically; tables are finite)
